@@ -72,6 +72,16 @@ def replay_behaviour(pool, beh):
     schema, rules, docs = built
     for si, h in enumerate(beh["hist"], 1):
         call = h["call"]
+        if call[0] == "edit":
+            # the CALLER edits its own document in place (the same top-level object keeps its identity)
+            new = dec_val(h["res"]["sel"][0])
+            d = docs[call[2] - 1]
+            if isinstance(d, dict):
+                d.clear()
+                d.update(new)
+            else:
+                d[:] = new
+            continue
         exp = expected_view(h["res"])
         with watch(objs=[schema] + rules, docs=docs) as w:
             out, got = outcome_of(lambda: observe_call(call, schema, rules, docs))
@@ -83,11 +93,23 @@ def replay_behaviour(pool, beh):
             raise Mismatch("DocumentUnchanged", f"call {si} {call}")
         if got != exp:
             raise Mismatch("Repeatable", f"call {si} {call}: real {got} expected {exp}")
-        f_schema, f_rules, f_docs = build_objects(pool)
-        fresh = observe_call(call, f_schema, f_rules, f_docs)
+        f_schema, f_rules, _ = build_objects(pool)
+        import copy as _copy
+        fresh = observe_call(call, f_schema, f_rules, _copy.deepcopy(docs))
         if fresh != got:
             raise Mismatch("SameAsFresh", f"call {si} {call}: shared {got} fresh {fresh}")
-    # the same calls from 4 real threads on the same shared objects
+    # the same calls from 4 real threads on the same shared objects (documents back to their original content)
+    orig = [dec_val(d) for d in pool["docs"]]
+    for d, o in zip(docs, orig):
+        if isinstance(d, dict):
+            d.clear()
+            d.update(o)
+        else:
+            d[:] = o
+    calls_only = [h for h in beh["hist"] if h["call"][0] != "edit"]
+    edited = any(h["call"][0] == "edit" for h in beh["hist"])
+    if edited or not calls_only:
+        return
     before = (graph_snap(schema), [doc_snap(d) for d in docs])
     errors = []
     barrier = threading.Barrier(4)
@@ -96,7 +118,7 @@ def replay_behaviour(pool, beh):
         try:
             barrier.wait()
             for _ in range(6):
-                hs = beh["hist"][k % len(beh["hist"]):] + beh["hist"][:k % len(beh["hist"])]
+                hs = calls_only[k % len(calls_only):] + calls_only[:k % len(calls_only)]
                 for h in hs:
                     got = observe_call(h["call"], schema, rules, docs)
                     if got != expected_view(h["res"]):
@@ -191,10 +213,12 @@ def leg_b(rep, tier, seed):
 
 def run(rep, tier, seed):
     install()
-    a = tlc.model_check("ReadOnly", "MC_ReadOnly.cfg" if tier == "quick" else "MC_ReadOnly_2.cfg", timeout=3000)
-    rep.add_tlc(a, "A:MC_ReadOnly")
-    if not a["ok"]:
-        raise tlc.MachineryError("leg A: MC_ReadOnly violated on the shipped specification\n" + a["out"][-2500:])
+    for cfg in (["MC_ReadOnly.cfg", "MC_ReadOnly_edits.cfg"] if tier == "quick" else
+                ["MC_ReadOnly_2.cfg", "MC_ReadOnly_edits2.cfg"]):
+        a = tlc.model_check("ReadOnly", cfg, timeout=6000)
+        rep.add_tlc(a, "A:" + cfg)
+        if not a["ok"]:
+            raise tlc.MachineryError(f"leg A: {cfg} violated on the shipped specification\n" + a["out"][-2500:])
     for cfg, what in [("MC_ReadOnly_reinit.cfg", "on-the-fly combination re-initialises the shared condition"),
                       ("MC_ReadOnly_inplace.cfg", "casts written into the caller's document")]:
         n = tlc.model_check("ReadOnly", cfg)
